@@ -113,7 +113,7 @@ def covered : List Body :=
    VaxisModel.Gen.TermBodies.body_decsc, VaxisModel.Gen.TermBodies.body_decrc, VaxisModel.Gen.TermBodies.body_ris,
    VaxisModel.Gen.TermBodies.body_setDefaultTabStops, VaxisModel.Gen.TermBodies.body_sm, VaxisModel.Gen.TermBodies.body_rm,
    VaxisModel.Gen.TermBodies.body_decset, VaxisModel.Gen.TermBodies.body_decrst, VaxisModel.Gen.TermBodies.body_decrqm,
-   VaxisModel.Gen.TermBodies.body_sgr]
+   VaxisModel.Gen.TermBodies.body_sgr, VaxisModel.Gen.TermBodies.body_osc]
 
 /-! Tactics: `body_norm` evaluates `evalBody` on a concrete body (first the interpreter itself, with
 the comparisons still folded so that their `Decidable` instances are built from normalised
